@@ -13,12 +13,13 @@ import (
 // (few bucket prefixes, long shared prefixes), none a proper prefix of another.
 
 const (
-	codeSHA512   = 0x13
-	codeSHA256   = 0x12
-	codeIdentity = 0x00
-	codecRaw     = 0x55
-	codecDagPB   = 0x70
-	codecDagCBOR = 0x71
+	codeSHA512     = 0x13
+	codeSHA512_256 = 0x1015
+	codeSHA256     = 0x12
+	codeIdentity   = 0x00
+	codecRaw       = 0x55
+	codecDagPB     = 0x70
+	codecDagCBOR   = 0x71
 )
 
 // KeySpec is one key of a plan.
@@ -164,6 +165,11 @@ func GenKeys(r *simrt.Rand, n int, short bool) []KeySpec {
 			if attempts > 20*n {
 				// the shared-prefix tree is saturated: perturb one later byte
 				d[4+r.Intn(28)] = byte(r.Intn(256))
+			}
+			if stem == nil && r.Chance(0.1) {
+				// a hash function whose multicodec code needs a two-byte varint
+				// (sha2-512-256, 32-byte digests)
+				code = codeSHA512_256
 			}
 			if stem != nil {
 				// prefix | stem | tail of the digest built above = 64 bytes; the
